@@ -77,7 +77,7 @@ def analyse(mod, run, label):
                       Finding("S4-advance-differs-from-filled-size", f.name, "memset@%s" % ms.line, "advance",
                               "%s zero-fills a region of the output and then advances the cursor over it by a differently computed amount (%s): if the two ever differ, bytes the function never wrote lie inside the returned length" % (f.name, loc(adv)), loc=loc(adv)))
         # S5: a fixed-size block from malloc() that is handed to a long-lived object is overwritten in full first
-        for (mi, st, ok) in raw_blocks_escaping(f):
+        for (mi, st, ok) in raw_blocks_escaping(f, w):
             run.s5 = getattr(run, "s5", 0) + 1
             run.check(ok, "S5-escaping-block-fully-initialised", {"fn": f.name, "malloc": loc(mi)},
                       Finding("S5-escaping-block-not-initialised", f.name, "malloc@%s" % mi.line, "store",
@@ -107,7 +107,7 @@ def dest_struct(f_addr, _f=[None]):
     return _f[0](f_addr) if _f[0] else None
 
 
-def raw_blocks_escaping(f):
+def raw_blocks_escaping(f, w=None):
     def ds(addr, d=0):
         if addr["k"] != "inst" or d > 8: return None
         x = f.imap[addr["v"]]
@@ -119,10 +119,10 @@ def raw_blocks_escaping(f):
         if x.op == "bitcast": return ds(x.ops[0], d + 1)
         return None
     dest_struct.__defaults__[0][0] = ds
-    return _raw_blocks_escaping(f)
+    return _raw_blocks_escaping(f, w)
 
 
-def _raw_blocks_escaping(f):
+def _raw_blocks_escaping(f, w=None):
     """[(malloc call, escaping store, fully initialised before?)] for malloc(constant) blocks whose pointer is stored outside the frame"""
     out = []
     def aliases(root_id):
@@ -165,6 +165,11 @@ def _raw_blocks_escaping(f):
                 # initialised after the pointer was stored: no return is reachable from the store without passing the initialisation or a free()
                 # (the allocation-failure path releases the object instead)
                 stop = {c.block.id for c in inits} | {c.block.id for c in f.calls("free")}
+                if w is not None:
+                    # a file-local release helper (`return discardShell_(clone)`) is a free() too
+                    for c in f.calls():
+                        sm = w.pts.summ.get(c.get("callee") or "")
+                        if sm is not None and any(r[0] == "arg" and r[2] == 0 for r in getattr(sm, "frees", ()) if isinstance(r, tuple) and len(r) == 3): stop.add(c.block.id)
                 later_same = any(c.block.id == st.block.id and c.block.insts.index(c) > st.block.insts.index(st) for c in inits)
                 reach_ret = False
                 if not later_same:
